@@ -9,6 +9,10 @@ RULE = ("exhaustive: every string of <= 4 (quick) / <= 6 (thorough) symbols over
         "{a b items +m * . : , [ ] space}; seeded random derivations of the grammar up to depth 6 with "
         "redundant brackets and random blanks (space, tab, newline, CR, FF), a share of them with non-ASCII "
         "identifiers; mutation-fuzzed near-misses of those (deletions, insertions, swaps, odd characters); "
+        "'+name' / '*' expressions (alone, below a trait link, below an items link) against REAL leaf objects "
+        "whose traits carry the metadata with each of the values True 1 'x' False 0 '' None absent, as class traits "
+        "and as traits added after registration: the traits that fire are compared with the model and with the "
+        "documented meaning (metadata is not None); "
         "pairs of spellings (blanks / redundant brackets / re-association / swapped branches / perturbed) for "
         "expression and graph equality; a case is non-trivial when it compiled or compared, distinct = "
         "distinct canonical output line")
@@ -69,11 +73,12 @@ def _derivations(rng, n, uni_share=0.1):
 
 def generate(rng, tier):
     if tier == "quick":
-        nex, nd, nf, ne = 4, 3000, 1500, 900
+        nex, nd, nf, ne, nm = 4, 3000, 1500, 900, 400
     elif tier == "thorough":
-        nex, nd, nf, ne = 6, 100000, 30000, 20000
+        nex, nd, nf, ne, nm = 6, 100000, 30000, 20000, 5000
     else:   # intense
-        nex, nd, nf, ne = 5, 30000, 20000, 5000
+        nex, nd, nf, ne, nm = 5, 30000, 20000, 5000, 3000
+    yield from _m_cases(rng, nm)
     for s in D.exhaustive(nex):
         yield D.case_c(s)
     texts = []
@@ -100,6 +105,33 @@ def generate(rng, tier):
             u = D.tree_tokens(D.perturb(rng, t))
         u_text = D.decorate(rng, u, 0.3) if rel == "ws" or rng.random() < 0.3 else "".join(u)
         yield D.case_eq(s, u_text, rel)
+
+
+M_PREFIXES = ["", "child:", "child.", "children:items:", "children.items.", " child : ", "[child]:"]
+M_LASTS = ["+sync", "+m", "*", "[+sync,+m]", "[+sync, t0]", "[t1,+m]", "+ sync", "[[+sync]]", "t2", "[+m,*]"]
+
+
+def _m_cases(rng, n):
+    """`+name` / `*` (alone, below a trait link, below an items link) against leaf
+    objects whose traits carry the metadata with every kind of value, as class
+    traits and as traits added after the registration."""
+    vals = ["T", "1", "x", "F", "0", "E", "N", "A"]
+    out = []
+    # every single value, every position, class trait and added trait
+    for v in vals:
+        for kind in "ca":
+            for pre in M_PREFIXES[:5]:
+                out.append(D.case_m(pre + "+sync", "t0:%s:%s:A,t1:c:A:%s" % (kind, v, v)))
+                out.append(D.case_m(pre + "+m", "t0:%s:%s:A,t1:c:A:%s" % (kind, v, v)))
+    for _ in range(n):
+        k = rng.randint(3, 6)       # t0..t2 are class traits: the named last elements refer to them
+        spec = ",".join("t%d:%s:%s:%s" % (i, "c" if i < 3 else rng.choice("cca"), rng.choice(vals), rng.choice(vals))
+                        for i in range(k))
+        pre, last = rng.choice(M_PREFIXES), rng.choice(M_LASTS)
+        if "*" in last and pre.startswith("["):
+            pre = "child:"
+        out.append(D.case_m(pre + last, spec))
+    return out
 
 
 def _hit(sig, what, **kw):
@@ -218,7 +250,9 @@ def _removal_check(text, dup, tags):
     return []
 
 
-def _classify_rejected(text, info):
+def _classify_rejected(text, info, exc=None):
+    if exc is not None and info["dup"] and "unique" not in str(exc):
+        info = dict(info, dup=False)        # rejected by the parser, not by the uniqueness check
     if info["star_in_brackets"]:
         return SIG_STAR, ("'*' inside brackets in a terminal position is documented as permitted "
                           "(manual: \"[a.*, b.c]\") but rejected")
@@ -265,7 +299,7 @@ def _run_c(text):
     if any(ord(ch) >= 128 for ch in text):
         tags.add("has:non-ascii-name")
     if graphs is None:
-        sig, what = _classify_rejected(text, info)
+        sig, what = _classify_rejected(text, info, real_exc)
         tags.add("rejected:" + sig.split(":")[-1])
         if out != "err ValueError":
             sig, what = "rejection-not-valueerror", "raised %s" % type(real_exc).__name__
@@ -346,7 +380,7 @@ def _run_eq(t1, t2, rel):
             _, i1 = D.denote(t1)
             _, i2 = D.denote(t2)
             info = i1 if i1["dup"] else i2
-            sig, what = _classify_rejected(t1, info)
+            sig, what = _classify_rejected(t1, info, e)
             if D.exc_name(e) != "ValueError":
                 sig, what = "rejection-not-valueerror", type(e).__name__
             hits.append(_hit(sig, what, text=[t1, t2], observed=out))
@@ -374,20 +408,116 @@ def _run_eq(t1, t2, rel):
     return out, hits, tags
 
 
+def _run_m(text, spec):
+    """Which traits of a REAL leaf object a compiled expression fires for."""
+    from traits.api import HasTraits, Instance, Int, List
+    from traits.observation import parsing as P
+    tags = {"match"}
+    hits = []
+    traits = []
+    for item in spec.split(","):
+        name, kind, vs, vm = item.split(":")
+        md = {}
+        if vs != "A":
+            md["sync"] = D.META_VALUES[vs]
+        if vm != "A":
+            md["m"] = D.META_VALUES[vm]
+        traits.append((name, kind, md, vs, vm))
+        tags.add("meta-value:" + vs)
+        tags.add("meta-value:" + vm)
+        tags.add("trait-kind:" + ("class" if kind == "c" else "added"))
+    try:
+        P.compile_str(text)
+    except Exception as e:      # noqa: BLE001
+        return "err " + D.exc_name(e), [], tags
+    Child = type("Child", (HasTraits,), {n: Int(**md) for n, k, md, _, _ in traits if k == "c"})
+    Parent = type("Parent", (Child,), {"child": Instance(HasTraits), "children": List(Instance(HasTraits))})
+    leaf_direct = not ("child" in text)
+    events = []
+    if leaf_direct:
+        root = leaf = Child()
+        tags.add("position:top")
+    else:
+        leaf = Child()
+        root = Parent(child=leaf, children=[Child(), leaf])
+        tags.add("position:below-items" if "items" in text else "position:below-trait")
+    root.observe(events.append, text)
+    for n, k, md, _, _ in traits:
+        if k == "a":
+            leaf.add_trait(n, Int(**md))
+    for n, _, _, _, _ in traits:
+        setattr(leaf, n, getattr(leaf, n) + 1)
+    own = {n for n, _, _, _, _ in traits}       # (`*` also reports the `trait_added` event of add_trait itself)
+    fired = sorted({e.name for e in events if e.object is leaf and e.name in own})
+    out = "fired " + (",".join(fired) if fired else "-")
+    # ---------------- oracle: the documented meaning, independent of traits and of the model:
+    # "+metadata_name  matches any trait on the object that has metadata metadata_name"
+    # (expression.metadata: "traits whose 'age' attribute has a non-None value"); "*" any trait.
+    try:
+        t = D.tree_of(text)
+        ws = D.words(t, True, None, False, {})
+    except D.NotInLanguage:
+        ws = []
+    expected = set()
+    for w in ws:
+        atom = w[-1][0]
+        for n, _, md, _, _ in traits:
+            if atom[0] == "A":
+                expected.add(n)
+            elif atom[0] == "M" and md.get(atom[1]) is not None:
+                expected.add(n)
+            elif atom[0] == "T" and atom[1] == n:
+                expected.add(n)
+    if set(fired) != expected:
+        wrong = sorted(set(fired) ^ expected)
+        cls = set()
+        for n, _, md, vs, vm in traits:
+            if n in wrong:
+                for v in (vs, vm):
+                    cls.add("falsy" if v in "F0E" else "none" if v in "NA" else "truthy")
+        sig = "metadata-filter-meaning:" + ("falsy-value" if "falsy" in cls else "-".join(sorted(cls)) or "other")
+        hits.append(_hit(sig, "a compiled '+name' / '*' step fires for %s on a real object, the documented meaning "
+                         "(metadata is not None) gives %s" % (fired, sorted(expected)), text=text, traits=spec))
+    # removal by (another spelling of the) text detaches it again
+    del events[:]
+    try:
+        root.observe(events.append, " " + text + " ", remove=True)
+        for n, _, _, _, _ in traits:
+            setattr(leaf, n, getattr(leaf, n) + 1)
+        if events:
+            hits.append(_hit("removal-by-text-leaves-hooks:filter", "handler still called after removal", text=text))
+    except Exception as e:      # noqa: BLE001
+        hits.append(_hit("removal-by-text-raises:filter", "removal raised %s" % type(e).__name__, text=text))
+    return out, hits, tags
+
+
 def run_impl(case):
     kind, t1, t2, rel = D.parse_case(case)
     if kind == "c":
         return _run_c(t1)
+    if kind == "m":
+        return _run_m(t1, t2)
     return _run_eq(t1, t2, rel)
 
 
 def nontrivial(case, out):
-    return out.startswith("ok") or out.startswith("eq")
+    return out.startswith("ok") or out.startswith("eq") or out.startswith("fired")
 
 
 def shrink(case, fails):
     """Delete characters while the same signature persists."""
     kind, t1, t2, rel = D.parse_case(case)
+    if kind == "m":
+        items = t2.split(",")
+        changed = True
+        while changed and len(items) > 1:
+            changed = False
+            for i in range(len(items)):
+                cand = items[:i] + items[i + 1:]
+                if fails(D.case_m(t1, ",".join(cand))):
+                    items, changed = cand, True
+                    break
+        return D.case_m(t1, ",".join(items))
     if kind != "c":
         return case
     s = t1
